@@ -7,7 +7,8 @@ blank line, data cards.  `respell(text, rng, kinds)` returns a text that MCNP re
   blanks        runs of blanks widened, up to four leading blanks before a card
   tabs          a blank replaced by a tab (tab stops every 8 columns; never in the first five columns)
   continuation  a card split over several lines (five leading blanks, or a trailing ampersand on the line before)
-  comments      `$` comments at line ends, full `c` comment lines between cards and inside continued cards
+  comments      `$` comments at line ends (also after a trailing ampersand; with further `$` and `&` inside the comment),
+                full `c` comment lines between cards and inside continued cards
   message       a message block (and its blank-line terminator) before the title
   numbers       Fortran spellings of real numbers (1.5 -> 1.5e0, 15.0-1, .15+1, 1.5D0) in surface parameters, TR entries,
                 material fractions and densities
@@ -240,8 +241,12 @@ def respell(text, rng, kinds=KINDS):
                     if k and rng.random() < 0.3:
                         with_c.append(rng.choice(('c a comment inside a card', 'C', '  c    another one', 'c\ttab after the c',
                                                   'C\t\ttabs')))
-                    if rng.random() < 0.3 and not p.rstrip().endswith('&'):
-                        p = p + ' $ ' + rng.choice(('comment', 'imp:n=0 u=99 (ignored)', '1 2 3'))
+                    if rng.random() < 0.3:
+                        # everything after the first `$` is comment: a second `$`, an ampersand (also as the last
+                        # character of the line) mean nothing there; `& $ comment` still continues the card
+                        p = p + ' $ ' + rng.choice(('comment', 'imp:n=0 u=99 (ignored)', '1 2 3', 'cost 3 $/l',
+                                                    'was: imp:n=1 & $ old continuation', 'a & b', 'ends with &',
+                                                    '$$ &'))
                     with_c.append(p)
                 parts = with_c
                 if rng.random() < 0.3:
